@@ -35,7 +35,7 @@ BOUNDS = {
 def two_basic(tier, elem='int', fmask=0, afls=((0, 1), (0, 0)), ops=None, witness=None):
     from .jobs import two_job, OPS2_ALL
     js = []
-    cs = [(2, 2, 2, 2), (2, 2, 2, 4), (2, 2, 4, 2), (2, 2, 4, 4), (0, 0, 2, 2), (2, 3, 2, 5), (3, 2, 3, 3), (3, 2, 3, 4), (2, 0, 2, 1), (0, 2, 1, 2)] if tier == 'quick' else \
+    cs = [(2, 2, 2, 2), (2, 2, 2, 4), (2, 2, 4, 2), (2, 2, 4, 4), (0, 0, 2, 2), (2, 3, 2, 3), (2, 3, 2, 5), (3, 2, 3, 3), (3, 2, 3, 4), (2, 0, 2, 1), (0, 2, 1, 2)] if tier == 'quick' else \
          [(2, 2, 2, 2), (2, 2, 2, 4), (2, 2, 4, 2), (2, 2, 4, 4), (0, 0, 0, 2), (0, 0, 2, 2), (0, 0, 2, 0), (2, 3, 2, 3), (2, 3, 2, 5), (3, 2, 3, 2), (3, 2, 3, 3), (3, 2, 3, 4), (3, 2, 5, 4), (0, 2, 0, 2), (0, 2, 1, 2), (0, 2, 0, 4), (2, 0, 2, 0), (2, 0, 2, 1), (2, 0, 2, 3), (2, 0, 4, 1), (1, 3, 1, 2)]
     for op in (ops or OPS2_ALL):
         for (afl, ideq) in afls:
@@ -150,7 +150,7 @@ def c03_jobs(tier):
                 if op in ('at', 'access') or not elem_supports(el, op): continue
                 for (n, cap) in (cells(tier) if el == 'Tr' else [(0, 2), (2, 2), (2, 4)]):
                     js.append(ops_job(op, el, n, cap, fmask=J.K_ALL, extra_defs={'VF_NFAULTS': 2 if op.startswith('insert') else 1}))
-    js += [j for j in two_basic(tier, 'Tr', afls=((0, 1), (0, 0))) if tier != 'quick' or j.defs['VF_OP'] in ('OP_copy_ctor', 'OP_move_ctor', 'OP_copy_assign', 'OP_move_assign', 'OP_assign_move', 'OP_append_copy') and (j.defs['VF_CAPA'], j.defs['VF_CAPB']) in ((2, 4), (4, 4), (3, 3), (2, 5))]
+    js += [j for j in two_basic(tier, 'Tr', afls=((0, 1), (0, 0))) if tier != 'quick' or j.defs['VF_OP'] in ('OP_copy_ctor', 'OP_move_ctor', 'OP_copy_assign', 'OP_move_assign', 'OP_assign_move', 'OP_append_copy') and (j.defs['VF_CAPA'], j.defs['VF_CAPB']) in ((2, 4), (4, 4), (3, 3), (2, 5), (2, 3))]
     js += rng_basic(tier, 'Tr')
     return _nn(js)
 REG['C03'] = Spec('C03', c03_jobs, memsafe=True, explanation=
